@@ -246,7 +246,7 @@ pub fn records(rng: &mut Rng, cfg: &Cfg) -> Vec<Rec> {
     }
     // serial numbers that wrap around keep their offset across MODEL records, so a wrapping file has one model
     let n_models = if rng.chance(1, 3) { 0 } else if cfg.wraps { 1 } else { 1 + rng.below(3) };
-    let names = ["N", "CA", "C", "O", "CB", "SG", "ca", "OXT", "ZN", "H", "HA", "X1", "1HB"];
+    let names = ["N", "CA", "C", "O", "CB", "SG", "ca", "OXT", "ZN", "H", "HA", "X1", "1HB", "HG1", "CD1", "NE2", "HE2", "ND1", "XE1", "FE2", "H3", "D1", "2H"];
     let resnames = ["ALA", "GLY", "CYS", "HOH", "ala", "MSE", "ZN", "A"];
     let first_serial = if cfg.wraps && rng.chance(1, 3) { 99_990 + rng.below(8) } else { 1 + rng.below(50) };
     let mut serial;
